@@ -5,7 +5,7 @@
    page_calls ...): Proofs/CloudOps.v, Proofs/CloudOpsBatch.v.
    A user closure is a function of the number of calls made so far (and of its argument). *)
 From Coq Require Import List NArith Bool Arith Lia.
-From IB Require Import Cloud.Ops Proofs.CloudOps Proofs.CloudOpsBatch.
+From IB Require Import Cloud.Ops Proofs.CloudOps Proofs.CloudOpsBatch Proofs.CloudOpsClock Proofs.CloudOpsCtx.
 Import ListNotations.
 
 (* ------------------------------------------------------------------ retry *)
@@ -287,6 +287,152 @@ Example c18_builder_run_calls_bound_ex :
   = 2%nat.
 Proof. reflexivity. Qed.
 
+(* ------------------------------------------------------------------ the clock, derived *)
+
+(* The wrappers above take the clock reading as an input.  With the reading derived from the run
+   itself (Cloud/Ops.v, Section Clock: tpm ticks per ms, `busy i` ticks inside call i, `extra`
+   >= 0 for everything else) it is well defined, because the calls and sleeps of every builder
+   and executor configuration are the same at every reading *)
+Theorem c18_shape_is_clock_free :
+  forall (X M : Type) (tmsg : M) (ss : list setter) (el el' : N) (op : nat -> res X M) (idx : nat),
+    run_calls (builder_run tmsg ss el op idx) = run_calls (builder_run tmsg ss el' op idx) /\
+    run_sleeps (builder_run tmsg ss el op idx) = run_sleeps (builder_run tmsg ss el' op idx) /\
+    run_calls (executor_run tmsg ss el op idx) = run_calls (executor_run tmsg ss el' op idx) /\
+    run_sleeps (executor_run tmsg ss el op idx) = run_sleeps (executor_run tmsg ss el' op idx).
+Proof. exact builder_run_shape_clock_free. Qed.
+Example c18_shape_is_clock_free_ex :
+  run_sleeps (builder_run 0%nat [SetTimeout 5; SetRetry ex_cfg] 0 ex_op 0) = [100; 150]%N /\
+  run_sleeps (builder_run 0%nat [SetTimeout 5; SetRetry ex_cfg] 999 ex_op 0) = [100; 150]%N.
+Proof. split; reflexivity. Qed.
+
+(* retry + timeout, all four entry points (run_with_timeout_and_retry,
+   run_cloud_io_with_retry_and_timeout, OperationBuilder and CloudIOExecutor with both setters):
+   the timeout brackets the WHOLE retry run.  When the back-off sleeps plus the time inside the
+   attempts exceed the timeout, a success is reported as Timeout and an error stays what it was -
+   whatever else the clock picked up - after exactly the attempts and sleeps of the plain retry *)
+Theorem c18_backoff_waits_count_against_timeout :
+  forall (X M : Type) (tmsg : M) (c : retry_cfg) (t tpm : N) (busy : nat -> N) (extra : N)
+         (op : nat -> res X M) (idx : nat),
+    let r := retry c op idx in
+    (t < tpm * nsum (run_sleeps r) + busy_sum busy idx (run_calls r))%N ->
+    let w := mk_run (late_outcome tmsg (run_out r)) (run_calls r) (run_sleeps r) in
+    timed_retry tmsg c t tpm busy extra op idx = w /\
+    timed_cloud_io_retry tmsg c t tpm busy extra op idx = w /\
+    timed_builder_execute tmsg (Some c) (Some t) tpm busy extra op idx = w /\
+    timed_executor_execute tmsg (Some c) (Some t) tpm busy extra op idx = w.
+Proof. exact timed_retry_overrun. Qed.
+Example c18_backoff_waits_count_against_timeout_ex :
+  (* 2 attempts, 400 ms back-off, 100 ms timeout, instantaneous operation failing once *)
+  (100 < 1 * nsum (run_sleeps (retry ex_cfg_wait ex_once 0))
+         + busy_sum no_busy 0 (run_calls (retry ex_cfg_wait ex_once 0)))%N /\
+  retry ex_cfg_wait ex_once 0 = mk_run (Done (ROk 7%nat)) 2 [400]%N /\
+  timed_retry 99%nat ex_cfg_wait 100 1 no_busy 0 ex_once 0
+  = mk_run (Done (RErr Timeout 99%nat)) 2 [400]%N.
+Proof. repeat split; vm_compute; reflexivity. Qed.
+
+(* in that situation none of the four ever reports a success *)
+Theorem c18_overrun_is_never_ok :
+  forall (X M : Type) (tmsg : M) (c : retry_cfg) (t tpm : N) (busy : nat -> N) (extra : N)
+         (op : nat -> res X M) (idx : nat) (v : X),
+    let r := retry c op idx in
+    (t < tpm * nsum (run_sleeps r) + busy_sum busy idx (run_calls r))%N ->
+    run_out (timed_retry tmsg c t tpm busy extra op idx) <> Done (ROk v) /\
+    run_out (timed_cloud_io_retry tmsg c t tpm busy extra op idx) <> Done (ROk v) /\
+    run_out (timed_builder_execute tmsg (Some c) (Some t) tpm busy extra op idx) <> Done (ROk v) /\
+    run_out (timed_executor_execute tmsg (Some c) (Some t) tpm busy extra op idx) <> Done (ROk v).
+Proof. exact timed_retry_overrun_never_ok. Qed.
+Example c18_overrun_is_never_ok_ex :
+  run_out (timed_executor_execute 99%nat (Some ex_cfg_wait) (Some 100%N) 1 no_busy 3 ex_once 0)
+  = Done (RErr Timeout 99%nat).
+Proof. reflexivity. Qed.
+
+(* one back-off wait is enough: a first transient failure under a budget of at least 2 and a
+   timeout below the initial delay - the operation itself may be instantaneous *)
+Theorem c18_first_backoff_overruns :
+  forall (X M : Type) (tmsg : M) (c : retry_cfg) (t tpm : N) (busy : nat -> N) (extra : N)
+         (op : nat -> res X M) (idx : nat) (v : X),
+    (2 <= budget c)%nat -> transient_err (op idx) = true ->
+    (t < tpm * initial_delay_ms c)%N ->
+    run_out (timed_retry tmsg c t tpm busy extra op idx) <> Done (ROk v) /\
+    run_out (timed_cloud_io_retry tmsg c t tpm busy extra op idx) <> Done (ROk v) /\
+    run_out (timed_builder_execute tmsg (Some c) (Some t) tpm busy extra op idx) <> Done (ROk v) /\
+    run_out (timed_executor_execute tmsg (Some c) (Some t) tpm busy extra op idx) <> Done (ROk v).
+Proof. exact first_backoff_overruns. Qed.
+Example c18_first_backoff_overruns_ex :
+  (2 <= budget ex_cfg_wait)%nat /\ transient_err (ex_once 0) = true /\
+  (100 < 1 * initial_delay_ms ex_cfg_wait)%N.
+Proof. repeat split; vm_compute; try reflexivity; lia. Qed.
+
+(* a run that is over in time is the plain retry run, result included *)
+Theorem c18_in_time_is_plain_retry :
+  forall (X M : Type) (tmsg : M) (c : retry_cfg) (t tpm : N) (busy : nat -> N) (extra : N)
+         (op : nat -> res X M) (idx : nat),
+    let r := retry c op idx in
+    (run_clock tpm busy idx r + extra <= t)%N ->
+    timed_retry tmsg c t tpm busy extra op idx = r /\
+    timed_cloud_io_retry tmsg c t tpm busy extra op idx = r /\
+    timed_builder_execute tmsg (Some c) (Some t) tpm busy extra op idx = r /\
+    timed_executor_execute tmsg (Some c) (Some t) tpm busy extra op idx = r.
+Proof. exact timed_retry_in_time. Qed.
+Example c18_in_time_is_plain_retry_ex :
+  (run_clock 1 no_busy 0 (retry ex_cfg_wait ex_once 0) + 5 <= 405)%N /\
+  timed_retry 99%nat ex_cfg_wait 405 1 no_busy 5 ex_once 0 = mk_run (Done (ROk 7%nat)) 2 [400]%N.
+Proof. split; vm_compute; [discriminate|reflexivity]. Qed.
+
+(* no retry configuration, a timeout: with_timeout around the single call; time inside the call
+   beyond the timeout turns a success into Timeout *)
+Theorem c18_timed_single_call :
+  forall (X M : Type) (tmsg : M) (t tpm : N) (busy : nat -> N) (extra : N)
+         (op : nat -> res X M) (idx : nat),
+    timed_builder_execute tmsg None (Some t) tpm busy extra op idx
+    = timed_with_timeout tmsg t busy extra op idx /\
+    timed_executor_execute tmsg None (Some t) tpm busy extra op idx
+    = timed_with_timeout tmsg t busy extra op idx /\
+    ((t < busy idx)%N -> forall v,
+        run_out (timed_with_timeout tmsg t busy extra op idx) <> Done (ROk v)).
+Proof. exact timed_no_retry. Qed.
+Example c18_timed_single_call_ex :
+  timed_with_timeout 99%nat 5 (fun _ => 25%N) 0 ex_once 1 = mk_run (Done (RErr Timeout 99%nat)) 1 [] /\
+  timed_with_timeout 99%nat 5 (fun _ => 25%N) 0 ex_once 0 = mk_run (Done (RErr Network 0%nat)) 1 [].
+Proof. split; reflexivity. Qed.
+
+(* the builders hand the retry configuration through as given: after ANY construction sequence the
+   sleeps are the delay sequence of the last with_retry argument - its own initial delay, its own
+   cap, its own multiplier - and there are none without with_retry *)
+Theorem c18_builder_sleeps_by_last_retry :
+  forall (X M : Type) (tmsg : M) (ss : list setter) (el : N) (op : nat -> res X M) (idx : nat),
+    run_sleeps (builder_run tmsg ss el op idx) =
+      match last_retry ss with
+      | Some c => delay_seq c (initial_delay_ms c) (run_calls (builder_run tmsg ss el op idx) - 1)
+      | None => []
+      end /\
+    run_sleeps (executor_run tmsg ss el op idx) =
+      match last_retry ss with
+      | Some c => delay_seq c (initial_delay_ms c) (run_calls (executor_run tmsg ss el op idx) - 1)
+      | None => []
+      end.
+Proof. exact builder_sleeps_by_last_retry. Qed.
+Example c18_builder_sleeps_by_last_retry_ex :
+  run_sleeps (executor_run 0%nat [SetRetry ex_cfg; SetTimeout 9; SetRetry ex_cfg_low_cap] 0 ex_down 0)
+  = [600; 50; 50]%N.
+Proof. reflexivity. Qed.
+
+(* initial_delay_ms at or above max_delay_ms: the first wait is the initial delay as given, every
+   later wait is exactly the cap ("never exceed the configured cap once backed off") *)
+Theorem c18_sleeps_cap_below_initial :
+  forall (X M : Type) (c : retry_cfg) (op : nat -> res X M) (idx : nat),
+    (max_delay_ms c <= initial_delay_ms c)%N -> (max_delay_ms c <= u64_max)%N ->
+    run_sleeps (retry c op idx) =
+    match (run_calls (retry c op idx) - 1)%nat with
+    | O => []
+    | S n => initial_delay_ms c :: repeat (max_delay_ms c) n
+    end.
+Proof. exact retry_sleeps_cap_below_initial. Qed.
+Example c18_sleeps_cap_below_initial_ex :
+  (max_delay_ms ex_cfg_low_cap <= initial_delay_ms ex_cfg_low_cap)%N /\
+  run_sleeps (retry ex_cfg_low_cap ex_down 0) = [600; 50; 50]%N.
+Proof. split; vm_compute; [discriminate|reflexivity]. Qed.
+
 (* ------------------------------------------------------------------ batch *)
 
 (* batch_in_chunks / run_batch_operation, for every item list, chunk size (0 included) and
@@ -364,6 +510,25 @@ Example c18_io_batch_spec_ex :
   io_batch ex_cfg ex_item_op [10; 20; 30; 40]%nat 0
   = (Done (RErr NotFound 3%nat), [10; 20; 20; 30]%nat, [100]%N) /\
   io_batch ex_cfg ex_item_op [10; 20]%nat 0 = (Done (ROk [10; 22]%nat), [10; 20; 20]%nat, [100]%N).
+Proof. split; reflexivity. Qed.
+
+(* run_cloud_io_batch sleeps: with `counts` the attempts spent on each started item (the trace is
+   each started item `count` times in a row), the sleeps are item after item a FRESH delay
+   sequence of count-1 terms - the back-off restarts at initial_delay_ms for every item and there
+   is no wait between two items *)
+Theorem c18_io_batch_sleeps :
+  forall (A R M : Type) (c : retry_cfg) (op : nat -> A -> res R M) (items : list A) (idx : nat),
+  exists counts : list nat,
+    (length counts <= length items)%nat /\
+    Forall (fun a => (1 <= a <= budget c)%nat) counts /\
+    snd (fst (io_batch c op items idx)) =
+      concat (map (fun p => repeat (fst p) (snd p)) (combine items counts)) /\
+    snd (io_batch c op items idx) =
+      concat (map (fun a => delay_seq c (initial_delay_ms c) (a - 1)) counts).
+Proof. exact io_batch_sleeps. Qed.
+Example c18_io_batch_sleeps_ex :
+  io_batch ex_cfg ex_item_op [10; 20]%nat 0 = (Done (ROk [10; 22]%nat), [10; 20; 20]%nat, [100]%N) /\
+  concat (map (fun a => delay_seq ex_cfg (initial_delay_ms ex_cfg) (a - 1)) [1; 2]%nat) = [100]%N.
 Proof. split; reflexivity. Qed.
 
 (* ------------------------------------------------------------------ paginate *)
@@ -462,3 +627,143 @@ Proof. exact paginate_wrappers. Qed.
 Example c18_paginate_wrappers_ex :
   run_cloud_io_paginated 9 10 (Some 2%N) ex_fetch = (Done (ROk [1; 2; 3; 4]%N), [(0, 10); (1, 10)]%N).
 Proof. reflexivity. Qed.
+
+(* ------------------------------------------------------------------ run_with_context *)
+
+(* run_with_context: exactly the closure's own outcome on the context given - Ok hands back the
+   value together with the context as the closure left it, Err the closure's error *)
+Theorem c18_run_with_context_spec :
+  forall (K V St : Type) (X M : Type) (c : op_context K V St)
+         (op : op_context K V St -> option (res X M * op_context K V St)),
+    (forall v c', op c = Some (ROk v, c') -> run_with_context c op = Done (ROk (v, c'))) /\
+    (forall k m c', op c = Some (RErr k m, c') -> run_with_context c op = Done (RErr k m)) /\
+    (op c = None -> run_with_context c op = Panic).
+Proof. exact run_with_context_spec. Qed.
+Example c18_run_with_context_spec_ex :
+  run_with_context (M := nat) ex_ctx (scripted_ctx_op Nat.eqb ex_acts (ROk 5%nat))
+  = Done (ROk (5%nat, mk_ctx 7%nat 1000%nat 2%N [(1, 11); (2, 20)]%nat)).
+Proof. reflexivity. Qed.
+
+(* a closure that increments the retry counter and adds metadata, then succeeds: the caller gets
+   the same name and start time back, retry_count = initial + number of increments (as long as
+   that fits a u32 - beyond it increment_retry panics) *)
+Theorem c18_context_survives :
+  forall (K V St : Type) (keq : K -> K -> bool)
+         (X M : Type) (c : op_context K V St) (acts : list (ctx_action K V)) (v : X),
+    (ctx_retry c + N.of_nat (count_inc K V acts) <= u32_max)%N ->
+    exists c',
+      run_with_context (M := M) c (scripted_ctx_op keq acts (ROk v)) = Done (ROk (v, c')) /\
+      ctx_apply keq c acts = Some c' /\
+      ctx_name c' = ctx_name c /\ ctx_start c' = ctx_start c /\
+      ctx_retry c' = (ctx_retry c + N.of_nat (count_inc K V acts))%N.
+Proof. exact run_with_context_scripted. Qed.
+Example c18_context_survives_ex :
+  (ctx_retry ex_ctx + N.of_nat (count_inc nat nat ex_acts) <= u32_max)%N /\
+  count_inc nat nat ex_acts = 2%nat.
+Proof. split; vm_compute; [discriminate|reflexivity]. Qed.
+
+(* the same closure failing: its error, whatever it did to the context *)
+Theorem c18_context_error :
+  forall (K V St : Type) (keq : K -> K -> bool)
+         (X M : Type) (c : op_context K V St) (acts : list (ctx_action K V)) k (m : M),
+    (ctx_retry c + N.of_nat (count_inc K V acts) <= u32_max)%N ->
+    run_with_context (X := X) c (scripted_ctx_op keq acts (RErr k m)) = Done (RErr k m).
+Proof. exact run_with_context_scripted_err. Qed.
+Example c18_context_error_ex :
+  run_with_context (X := nat) ex_ctx (scripted_ctx_op Nat.eqb ex_acts (RErr NotFound 3%nat))
+  = Done (RErr NotFound 3%nat).
+Proof. reflexivity. Qed.
+
+(* the closure's actions as a whole: name and start time untouched, the counter goes up by the
+   increments, and the run panics exactly when that leaves the u32 range *)
+Theorem c18_context_actions :
+  forall (K V St : Type) (keq : K -> K -> bool)
+         (acts : list (ctx_action K V)) (c : op_context K V St),
+    (ctx_retry c <= u32_max)%N ->
+    match ctx_apply keq c acts with
+    | Some c' =>
+        ctx_name c' = ctx_name c /\ ctx_start c' = ctx_start c /\
+        ctx_retry c' = (ctx_retry c + N.of_nat (count_inc K V acts))%N /\
+        (ctx_retry c' <= u32_max)%N
+    | None => (u32_max < ctx_retry c + N.of_nat (count_inc K V acts))%N
+    end.
+Proof. exact ctx_apply_spec. Qed.
+Example c18_context_actions_ex :
+  ctx_apply Nat.eqb (mk_ctx 7%nat 0%nat (u32_max - 1) ([] : list (nat * nat)))
+            [ActIncrement; ActIncrement] = None /\
+  ctx_apply Nat.eqb (mk_ctx 7%nat 0%nat (u32_max - 1) ([] : list (nat * nat))) [ActIncrement]
+  = Some (mk_ctx 7%nat 0%nat u32_max []).
+Proof. split; reflexivity. Qed.
+
+(* add_metadata is a map insert: the key now has the new value, every other key keeps what it
+   had, no key is ever bound twice, name / start time / counter are untouched *)
+Theorem c18_add_metadata_spec :
+  forall (K V St : Type) (keq : K -> K -> bool),
+    (forall a b, keq a b = true <-> a = b) ->
+  forall (c : op_context K V St) (k : K) (v : V),
+    let c' := ctx_add_metadata keq c k v in
+    (ctx_name c' = ctx_name c /\ ctx_start c' = ctx_start c /\ ctx_retry c' = ctx_retry c /\
+     meta_get keq k (ctx_meta c') = Some v /\
+     (forall k', k' <> k -> meta_get keq k' (ctx_meta c') = meta_get keq k' (ctx_meta c))) /\
+    (NoDup (map fst (ctx_meta c)) -> NoDup (map fst (ctx_meta c'))) /\
+    (length (ctx_meta c') <= S (length (ctx_meta c)))%nat.
+Proof.
+  exact (fun K V St keq Hk c k v =>
+           conj (ctx_add_metadata_spec K V St keq Hk c k v)
+                (conj (meta_insert_nodup K V keq Hk k v (ctx_meta c))
+                      (meta_insert_length K V keq k v (ctx_meta c)))).
+Qed.
+Example c18_add_metadata_spec_ex :
+  (forall a b, Nat.eqb a b = true <-> a = b) /\
+  ctx_meta (ctx_add_metadata Nat.eqb (ctx_add_metadata Nat.eqb (ctx_add_metadata Nat.eqb ex_ctx
+              1 10) 2 20) 1 11)%nat = [(1, 11); (2, 20)]%nat.
+Proof. split; [exact Nat.eqb_eq|reflexivity]. Qed.
+
+(* ------------------------------------------------------------------ ConnectionPool *)
+
+(* whatever sequence of acquire / release / size calls is made on a pool from new(max_size): it
+   never holds more than max_size connections, max_size never changes, every size() reported is
+   within the bound.  new() itself panics exactly when max_size * size_of::<T>() > isize::MAX *)
+Theorem c18_pool_bounded :
+  forall (T M : Type) (elem_size max_size : N) (ops : list (pool_op T M)),
+    match pool_new (T := T) elem_size max_size with
+    | None => (isize_max < elem_size * max_size)%N
+    | Some p =>
+        (elem_size * max_size <= isize_max)%N /\
+        let '(obs, pf) := pool_run p ops in
+        pool_max pf = max_size /\ (N.of_nat (pool_size pf) <= max_size)%N /\
+        Forall (obs_bounded T M max_size) obs
+    end.
+Proof. exact pool_bounded_from_new. Qed.
+Example c18_pool_bounded_ex :
+  pool_new (T := nat) 8 2 = Some (mk_pool [] 2) /\
+  pool_run (mk_pool [] 2) ex_pool_ops
+  = ([OAcquired (ROk 100%nat) true; OReleased; OReleased; OReleased; OSize 2;
+      OAcquired (ROk 101%nat) false; OAcquired (ROk 100%nat) false;
+      OAcquired (RErr NotFound 9%nat) true], mk_pool [] 2) /\
+  pool_new (T := nat) 8 (2 ^ 60) = None.
+Proof. repeat split; reflexivity. Qed.
+
+(* a stack: `create` is called exactly when the pool is empty (its result - error included - is
+   handed back as is and the pool stays empty), otherwise the most recently pooled connection
+   comes back; release-then-acquire with room returns the very connection and restores the pool;
+   a full pool drops what is released *)
+Theorem c18_pool_lifo :
+  forall (T M : Type) (p : pool T) (x : T) (create : res T M),
+    match pool_conns p with
+    | [] => pool_acquire p create = (create, p, true)
+    | y :: rest => pool_acquire p create = (ROk y, mk_pool rest (pool_max p), false)
+    end /\
+    ((N.of_nat (pool_size p) < pool_max p)%N ->
+     pool_acquire (pool_release p x) create = (ROk x, p, false)) /\
+    ((pool_max p <= N.of_nat (pool_size p))%N -> pool_release p x = p).
+Proof.
+  exact (fun T M p x create =>
+           conj (pool_acquire_spec T M p create)
+                (conj (pool_lifo T M p x create) (pool_release_full T p x))).
+Qed.
+Example c18_pool_lifo_ex :
+  pool_acquire (pool_release (mk_pool [5]%nat 2) 6%nat) (RErr Network 0%nat)
+  = (ROk 6%nat, mk_pool [5]%nat 2, false) /\
+  pool_release (mk_pool [5; 4]%nat 2) 6%nat = mk_pool [5; 4]%nat 2.
+Proof. split; reflexivity. Qed.
